@@ -214,7 +214,31 @@ def history(case, env, res, facts):
             # only render when it is cheap: small fixed sizes or small dynamic results
             rs = im.rendered_size
             if rs[0] * rs[1] <= 600 and (family == "text" or (facts.cell and rs[0] * rs[1] * facts.cell[0] * facts.cell[1] <= 40000)):
-                str(im)
+                if rnd.random() < 0.4:
+                    # the terminal is resized (or the cell ratio changed) while the image is
+                    # being rendered: the render keeps the size it started with, the size
+                    # *setting* is untouched and follows the new conditions afterwards
+                    real = im._render_image
+                    change = rnd.choice(["resize", "resize", "ratio"])
+                    new_term = (logu(rnd, 1, 300), logu(rnd, 1, 100))
+                    new_ratio = rnd.choice([0.5, 1.0, rnd.uniform(0.1, 4)])
+
+                    def during(*a, **k):
+                        if change == "resize":
+                            apply_env(env, facts, *new_term, *(facts.cell or (0, 0)), facts.ratio)
+                        else:
+                            apply_env(env, facts, *facts.term, *(facts.cell or (0, 0)), new_ratio)
+                        return real(*a, **k)
+
+                    im._render_image = during
+                    try:
+                        str(im)
+                    finally:
+                        del im._render_image
+                    ops[-1] = "render+" + change
+                    res.count("renders with a resize / ratio change landing inside")
+                else:
+                    str(im)
                 res.count("renders inside histories")
             else:
                 ops[-1] = "render-skipped"
